@@ -110,9 +110,10 @@ ob("pxref_read_u64", ["C02", "C01", "C14"], "parse_xref.rs", unwind=11, cuts=X1_
 for h in ("pxref_section_w111_n2", "pxref_section_w121_n2", "pxref_section_w022_n2", "pxref_section_w120_n1"):
     ob(h, ["C02"], "parse_xref.rs", unwind=5, cuts=X1_ERR, stubs=[FMT_STUB], functions=PX, timeout=900,
        bound="one subsection, widths/count = %s, all data bytes, symbolic first id" % h[14:])
-ob("pxref_section_sizes_total", ["C01", "C14"], "parse_xref.rs", unwind=7, cuts=X1_ERR, stubs=[FMT_STUB], functions=PX,
-   timeout=900, bound="every entry count and width triple representable as 32-bit PDF integers (sum > 0), 4 data bytes, "
-                      "strict and tolerant: no panic")
+for m_ in ("strict", "tolerant"):
+    ob("pxref_section_sizes_%s" % m_, ["C01", "C14"], "parse_xref.rs", unwind=7, cuts=X1_ERR, stubs=[FMT_STUB], functions=PX,
+       timeout=2400, mem_gb=16, tier="thorough" if m_ == "strict" else "infeasible", bound="entry counts 0, 1, 5, 2^31-1 x every width triple representable as 32-bit PDF integers (sum > 0), "
+                           "4 data bytes, %s mode: no panic" % m_)
 ob("pxref_section_zero_width", ["C14"], "parse_xref.rs", unwind=5, cuts=X1_ERR, stubs=[FMT_STUB], functions=PX,
    timeout=900, unwind_is_violation=True,
    bound="widths [0,0,0], every count < 2^31: the entry loop must stay bounded by the data")
@@ -161,6 +162,17 @@ for l in (1, 2, 3, 4, 5):
 ob("strlex_octal3", ["C03"], "strlex.rs", tier="infeasible", unwind=6, cuts=X1_ERR, stubs=[FMT_STUB], timeout=900, functions=SLFN,
    unwindset=[(r"StringLexer::<'_>::next_lexeme$", None, 2), (r"StringLexer::<'_>::next_lexeme$", 0, 4)],
    bound="all 512 three-digit octal escapes followed by a non-octal digit")
+for l in (2, 3, 4, 5):
+    ob("strlex_lit_step_l%d" % l, ["C03", "C01"], "strlex.rs", unwind=5, cuts=X1_ERR, stubs=[FMT_STUB],
+       unwindset=[(r"StringLexer::<'_>::next_lexeme$", None, 1), (r"verif_h_strlex::lit_step_ref::<", 0, l + 2)],
+       tier="quick" if l <= 3 else "thorough", timeout=1200, mem_gb=12, functions=SLFN,
+       bound="one next_lexeme() call from EVERY lexer state (position <= %d, nesting depth 0..999) on every %d-byte buffer: "
+             "produced byte / end-of-string, consumed length and nesting depth vs the reference step (inductive step of the "
+             "literal-string decoder)" % (l, l))
+ob("strlex_lit_step_cont_l4", ["C03"], "strlex.rs", unwind=5, cuts=X1_ERR, stubs=[FMT_STUB], tier="thorough", timeout=2400, mem_gb=16,
+   unwindset=[(r"StringLexer::<'_>::next_lexeme$", None, 2), (r"verif_h_strlex::lit_step_ref::<", 0, 6)], functions=SLFN,
+   bound="one next_lexeme() call that starts at a line continuation (backslash + CR / LF / CRLF) in a 4-byte buffer: exactly one "
+         "recursive call")
 HLFN = ["parser::lexer::str::HexStringLexer::next_hex_byte", "parser::lexer::str::HexStringLexer::next_non_whitespace_char"]
 for l in (1, 2, 3, 4):
     ob("strlex_hex_l%d" % l, ["C03", "C01"], "strlex.rs", unwind=l + 3, cuts=X1_ERR, stubs=[FMT_STUB],
@@ -259,6 +271,19 @@ for h, t in [("file_opt_i32_free", "quick"), ("file_opt_i32_undefined", "quick")
        bound="one dangling reference (%s) through the real StorageResolver, strict and tolerant mode" % h[9:])
 
 # ---------------------------------------------------------------------------------------------------------------------
+# object/stream.rs: C11 (object-stream member slicing), C14 (its arithmetic)
+# ---------------------------------------------------------------------------------------------------------------------
+X1_STREAM = X1_ALL + ["object::stream::ObjectStream", "object::stream::Stream<object::stream::ObjStmInfo>",
+                      "object::stream::StreamInfo<object::stream::ObjStmInfo>"]
+for n in (1, 2, 3):
+    ob("stream_objstm_slice_n%d" % n, ["C11"], "stream.rs", unwind=10, cuts=X1_STREAM, stubs=[FMT_STUB, DEC_STUB], timeout=900,
+       functions=["object::stream::ObjectStream::get_object_slice", "object::stream::Stream::data"],
+       bound="object stream with %d members, every increasing offset table and /First inside 8 data bytes, every index" % n)
+ob("stream_objstm_slice_hostile", ["C14", "C01"], "stream.rs", unwind=10, cuts=X1_STREAM, stubs=[FMT_STUB, DEC_STUB], timeout=900,
+   functions=["object::stream::ObjectStream::get_object_slice"],
+   bound="2 members, ARBITRARY usize offsets and /First, every index: no panic")
+
+# ---------------------------------------------------------------------------------------------------------------------
 # parser/mod.rs (experimental: one level of the object parser)
 # ---------------------------------------------------------------------------------------------------------------------
 ob("typesprobe_descent", ["X98"], "types_probe.rs", unwind=4, cuts=X1_ERR, timeout=300, functions=[], bound="probe")
@@ -268,6 +293,17 @@ for l in (1, 2):
     ob("parser_scalar_total_l%d" % l, ["X99"], "parser.rs", unwind=l + 2, cuts=X1_ALL, guards=PARSER_GUARDS,
        stubs=[FMT_STUB], timeout=1200, mem_gb=16,
        functions=["parser::_parse_with_lexer_ctx"], bound="all buffers of %d bytes" % l)
+
+FLFN = ["enc::flate_decode", "enc::inflate_bytes_zlib", "enc::inflate_bytes", "enc::unfilter", "enc::PredictorType::from_u8"]
+for t_ in (5, 4, 2):
+    ob("enc_flate_ragged_t%d" % t_, ["C01", "C05", "C14"], "enc.rs", unwind=12, cuts=X1_ERR, stubs=[FMT_STUB], timeout=1800, mem_gb=12,
+       tier="quick" if t_ == 5 else "thorough", functions=FLFN,
+       bound="PNG predictor, rows of 3 bytes, %d inflated bytes that do not form whole rows, all byte values: no panic" % t_)
+for w_ in ("colors", "bits", "columns"):
+    # NOT REGISTERED: symbolic geometry makes the row buffers symbolic-sized: out of memory at 12 GB after 23 min
+    ob("enc_flate_hostile_%s" % w_, ["C14", "C01"], "enc.rs", tier="infeasible", unwind=12, cuts=X1_ERR, stubs=[FMT_STUB], timeout=1800, mem_gb=12,
+       functions=FLFN, bound="predictor 12, EVERY i32 value of %s with the other two parameters at extreme values, 2 inflated bytes: "
+       "no panic" % w_)
 
 
 def select(prop, tier, seed=0):
